@@ -68,6 +68,22 @@ def scenario(rng, findings=False):
             new["opt"]["budget"] = max(2, new["opt"].get("budget", 0))
             sends([1, 3, 3], rng.randint(2, 5))
             scn["callback_copy"] = True
+    # callbacks kept as plain instance attributes of the machine, set before super().__init__() (deepcopy only: a bound
+    # method in the instance dictionary cannot be pickled)
+    if rng.random() < 0.3:
+        picked = [cb for cb in d["cbs"] if cb["prov"] == "sm" and cb.get("style") in ("name", "convention") and not cb.get("alias")
+                  and rng.random() < 0.6]
+        for cb in picked:
+            cb["inst_attr"] = True
+        if picked:
+            for st in steps:
+                if st.get("api") == "copy":
+                    st["how"] = "deepcopy"
+            for v in (scn.get("script") or {}).values():
+                for op in v:
+                    if isinstance(op, dict) and "copy" in op:
+                        op["how"] = "deepcopy"
+            scn["instance_attribute_callbacks"] = True
     # events bound onto the model (bind_events_to / MachineMixin): after a copy, the clone's model drives the CLONE
     if rng.random() < 0.4:
         new["bind_model"] = True
@@ -116,7 +132,7 @@ def featurize(scn, res, v):
     if async_any and not async_on_machine_or_model:
         listener_only_async = True
     nxt = lines[k] if k < len(lines) else {}
-    return {"copy_taken_by_callback": bool(scn.get("callback_copy")), "events_bound_to_model": bool(scn["steps"][0].get("bind_model")), "listener_kind": scn.get("listener_kind", "attr"), "listeners": len([p for p in ctor_provs if p not in ("sm", "model")]),
+    return {"instance_attribute_callbacks": bool(scn.get("instance_attribute_callbacks")), "copy_taken_by_callback": bool(scn.get("callback_copy")), "events_bound_to_model": bool(scn["steps"][0].get("bind_model")), "listener_kind": scn.get("listener_kind", "attr"), "listeners": len([p for p in ctor_provs if p not in ("sm", "model")]),
             "copied_before_activation": copied_before_activation, "async_only_on_listeners": listener_only_async,
             "written_before_activation": written_before_activation,
             "on_clone": nxt.get("i", 1) != 1}
